@@ -64,7 +64,8 @@ def register(claim):
         'entropy, create_dist, ParametricDistribution methods, constructors included) with the '
         'stated formulas, and of the PPO inference function (network opaque) with the stated '
         'dataflow: squashed sample, log-prob of the pre-squash action from the same logits, raw '
-        'action, mode when deterministic, observations preprocessed before the network.',
+        'action, mode when deterministic, observations preprocessed before the network; a value '
+        'equality on the distribution classes, if defined, covers every configured attribute.',
         'Trusted: python ast, AVN normal form, log/softplus/tanh/normal noise as uninterpreted '
         'atoms, reference formulas B.8.  Floating-point accuracy of softplus at large |x| and the '
         'range of tanh are not decided.',
@@ -205,8 +206,8 @@ def register(claim):
         'termination flags and per-member randomised systems, and for every member alone; all '
         'member outputs after reset and several steps are identical normal forms in the two runs '
         '(for every termination schedule at once).  Structural rules fix the vmap lifting sites '
-        'and in_axes, and exclude collectives, ignored axis arguments and Python-side state in '
-        'mapped code.',
+        'and in_axes, and exclude collectives, ignored axis arguments, PRNG re-wrapping, trace '
+        'introspection (branching on tracer vs concrete values) and Python-side state in mapped code.',
         'Trusted: python ast, AVN normal form, jax.vmap = independent elementwise application.  Not '
         'decided: jit-vs-eager numeric agreement (XLA); independence inside the physics pipelines '
         'rests on vmap semantics plus R7.3.',
